@@ -1,5 +1,294 @@
-import Pun.Model.Dss
+import Pun.Lemmas.Grid
 import Pun.Gen.GridGen
+/-!
+# C08 — Dempster–Shafer structures convert to their belief / plausibility p-box
+
+All theorems are about `Pun.Dss.stacking` / `Pun.Dss.roundtrip`, the functions the driver executes,
+for ANY grid `g` of levels in `(0,1]` and any number of focal elements; the last section instantiates
+the grid hypotheses for the grid regenerated from `params.py` (`Pun.Gen.pValues`).
+
+* `stacking_geninv`         ★ left/right bound at every grid level = generalised inverse of the
+                              plausibility / belief function (smallest endpoint whose cumulated mass reaches the level)
+* `stacking_perm_invariant` ★ any listing order of the focal elements gives the same p-box
+* `stacking_split_invariant`★ a focal element split into copies sharing its mass gives the same p-box
+* `roundtrip`               ★ `to_dss().to_pbox()` is the identity on well-formed p-boxes
+* `grid_hit`                ○ a cumulated mass equal to the level selects that focal element
+-/
+set_option linter.unusedSimpArgs false
+set_option linter.unusedVariables false
 namespace Pun.Props.C08
-theorem placeholder : True := trivial
+open Pun Pun.Grid Pun.Dss
+
+/-- every grid level is a probability level in `(0,1]` -/
+def GridOK (g : List ℚ) : Prop := ∀ p ∈ g, 0 < p ∧ p ≤ 1
+
+theorem mapOpt_spec (f : ℚ → Option ℚ) (Q : ℚ → ℚ → Prop) (g : List ℚ)
+    (h : ∀ p ∈ g, ∃ v, f p = some v ∧ Q p v) :
+    ∃ l, mapOpt f g = some l ∧ l.length = g.length ∧
+      ∀ (i : Nat) (p : ℚ), g[i]? = some p → ∃ a, l[i]? = some a ∧ Q p a := by
+  induction g with
+  | nil => exact ⟨[], rfl, rfl, by simp⟩
+  | cons x r ih =>
+    obtain ⟨v, hv, hq⟩ := h x (by simp)
+    obtain ⟨l, hl, hlen, hspec⟩ := ih (fun p hp => h p (List.mem_cons_of_mem _ hp))
+    refine ⟨v :: l, by simp only [mapOpt, hv, hl], by simp [hlen], ?_⟩
+    intro i p hp
+    cases i with
+    | zero => simp only [List.getElem?_cons_zero, Option.some.injEq] at hp; subst hp; exact ⟨v, by simp, hq⟩
+    | succ j => simp only [List.getElem?_cons_succ] at hp ⊢; exact hspec j p hp
+
+/-- one bound: the model's lookup at every grid level is the generalised inverse of the cumulated mass -/
+theorem bound_spec (g s w : List ℚ) (hv : ValidW s w) (hg : GridOK g) :
+    ∃ e l, getEcdf s w = some e ∧ bound g e = some l ∧ l.length = g.length ∧
+      ∀ (i : Nat) (p : ℚ), g[i]? = some p → ∃ a, l[i]? = some a ∧ IsGenInv (massLE (s.zip w)) p a := by
+  obtain ⟨e0, he0⟩ : ∃ e, getEcdf s w = some e := by
+    obtain ⟨e, _, he, _⟩ := model_geninv s w hv 1 (by norm_num) (le_refl _)
+    exact ⟨e, he⟩
+  have h : ∀ p ∈ g, ∃ v, interpNext (extendEcdf e0) p = some v ∧ IsGenInv (massLE (s.zip w)) p v := by
+    intro p hp
+    obtain ⟨e, v, he, hi, hgi⟩ := model_geninv s w hv p (hg p hp).1 (hg p hp).2
+    rw [he0, Option.some.injEq] at he; subst he
+    exact ⟨v, hi, hgi⟩
+  obtain ⟨l, hl, hlen, hspec⟩ := mapOpt_spec _ _ g h
+  exact ⟨e0, l, he0, hl, hlen, hspec⟩
+
+theorem allLE_get {l r : List ℚ} (h : allLE l r = true) {i : Nat} {a b : ℚ}
+    (ha : l[i]? = some a) (hb : r[i]? = some b) : a ≤ b := by
+  induction l generalizing r i with
+  | nil => simp at ha
+  | cons x l ih =>
+    cases r with
+    | nil => simp at hb
+    | cons y r =>
+      simp only [allLE, Bool.and_eq_true, decide_eq_true_eq] at h
+      cases i with
+      | zero => simp at ha hb; subst ha; subst hb; exact h.1
+      | succ j => simp at ha hb; exact ih h.2 ha hb
+
+theorem allGE_get {l r : List ℚ} (h : allGE l r = true) {i : Nat} {a b : ℚ}
+    (ha : l[i]? = some a) (hb : r[i]? = some b) : b ≤ a := by
+  induction l generalizing r i with
+  | nil => simp at ha
+  | cons x l ih =>
+    cases r with
+    | nil => simp at hb
+    | cons y r =>
+      simp only [allGE, Bool.and_eq_true, decide_eq_true_eq] at h
+      cases i with
+      | zero => simp at ha hb; subst ha; subst hb; exact h.1
+      | succ j => simp at ha hb; exact ih h.2 ha hb
+
+/-- belief ≤ plausibility: the mass of focal elements entirely below `t` is at most the mass of those starting below `t` -/
+theorem bel_le_pl (lo hi w : List ℚ) (hlen : lo.length = hi.length) (hle : allLE lo hi = true)
+    (hw : ∀ x ∈ w, 0 ≤ x) (t : ℚ) :
+    massLE (hi.zip w) t ≤ massLE (lo.zip w) t := by
+  induction lo generalizing hi w with
+  | nil =>
+    cases hi with
+    | nil => simp [massLE]
+    | cons y hi => simp at hlen
+  | cons x lo ih =>
+    cases hi with
+    | nil => simp at hlen
+    | cons y hi =>
+      cases w with
+      | nil => simp [massLE]
+      | cons m w =>
+        simp only [allLE, Bool.and_eq_true, decide_eq_true_eq] at hle
+        have hm : 0 ≤ m := hw m (by simp)
+        have := ih hi w (by simpa using hlen) hle.2 (fun x hx => hw x (List.mem_cons_of_mem _ hx))
+        simp only [List.zip_cons_cons, massLE]
+        by_cases h1 : y ≤ t
+        · have h2 : x ≤ t := le_trans hle.1 h1
+          simp only [h1, h2, if_true]; linarith
+        · simp only [h1, if_false]; split <;> linarith
+
+theorem geninv_le {F G : ℚ → ℚ} (hFG : ∀ t, G t ≤ F t) {x a b : ℚ}
+    (ha : IsGenInv F x a) (hb : IsGenInv G x b) : a ≤ b := by
+  by_contra hc
+  have := ha.2 b (not_le.mp hc)
+  have := hb.1
+  have := hFG b
+  linarith
+
+/-- ★ `stacking` on a valid DS structure (at least one focal interval, `lo ≤ hi`, non-negative masses summing
+to one): it succeeds, and at every grid level the left bound is the generalised inverse of the plausibility
+function `t ↦ Σ{m_k | lo_k ≤ t}` and the right bound that of the belief function `t ↦ Σ{m_k | hi_k ≤ t}`. -/
+theorem stacking_geninv (g lo hi w : List ℚ) (hlen : lo.length = hi.length) (hv : ValidW lo w)
+    (hle : allLE lo hi = true) (hg : GridOK g) :
+    ∃ P, stacking g lo hi (some w) = .ok P ∧ P.left.length = g.length ∧ P.right.length = g.length ∧
+      ∀ (i : Nat) (p : ℚ), g[i]? = some p → ∃ a b, P.left[i]? = some a ∧ P.right[i]? = some b ∧
+        IsGenInv (massLE (lo.zip w)) p a ∧ IsGenInv (massLE (hi.zip w)) p b := by
+  have hv2 : ValidW hi w := ⟨hlen ▸ hv.len, by
+    intro h; apply hv.ne; apply List.eq_nil_of_length_eq_zero; rw [hlen, h]; rfl, hv.nonneg, hv.sum1⟩
+  obtain ⟨e1, l, he1, hl, hllen, hlspec⟩ := bound_spec g lo w hv hg
+  obtain ⟨e2, r, he2, hr, hrlen, hrspec⟩ := bound_spec g hi w hv2 hg
+  have hpos : ¬ lo.length < 1 := by
+    have := List.length_pos_iff.mpr hv.ne; omega
+  have hst : stacking g lo hi (some w) = .ok (switch l r) := by
+    simp only [stacking, hlen, ne_eq, not_true_eq_false, if_false, hle, Bool.not_true, Bool.false_eq_true,
+      weightsOf, hv2.len.symm, he1, he2, hl, hr, hlen ▸ hpos]
+  refine ⟨switch l r, hst, ?_⟩
+  have key : ∀ (i : Nat) (p : ℚ), g[i]? = some p → ∃ a b, l[i]? = some a ∧ r[i]? = some b ∧
+      IsGenInv (massLE (lo.zip w)) p a ∧ IsGenInv (massLE (hi.zip w)) p b ∧ a ≤ b := by
+    intro i p hp
+    obtain ⟨a, ha, hga⟩ := hlspec i p hp
+    obtain ⟨b, hb, hgb⟩ := hrspec i p hp
+    exact ⟨a, b, ha, hb, hga, hgb, geninv_le (bel_le_pl lo hi w hlen hle hv.nonneg) hga hgb⟩
+  unfold switch
+  by_cases hsw : allGE l r = true
+  · simp only [hsw, if_true]
+    refine ⟨hrlen, hllen, ?_⟩
+    intro i p hp
+    obtain ⟨a, b, ha, hb, hga, hgb, hab⟩ := key i p hp
+    have hba : b ≤ a := allGE_get hsw ha hb
+    have : a = b := le_antisymm hab hba
+    subst this
+    exact ⟨a, a, hb, ha, hga, hgb⟩
+  · simp only [hsw, if_false]
+    refine ⟨hllen, hrlen, ?_⟩
+    intro i p hp
+    obtain ⟨a, b, ha, hb, hga, hgb, _⟩ := key i p hp
+    exact ⟨a, b, ha, hb, hga, hgb⟩
+
+example : ValidW [1, 2] [1/2, 1/2] ∧ allLE [1, 2] [3, 4] = true ∧ GridOK [1/4, 3/4] :=
+  ⟨⟨rfl, by simp, by intro x hx; simp at hx; subst hx; norm_num, by norm_num⟩, by decide +kernel,
+   by intro p hp; simp at hp; rcases hp with rfl | rfl <;> norm_num⟩
+
+/-- two valid structures with the same plausibility and belief functions give the same p-box -/
+theorem stacking_eq_of_same_mass (g lo hi w lo' hi' w' : List ℚ)
+    (hlen : lo.length = hi.length) (hv : ValidW lo w) (hle : allLE lo hi = true)
+    (hlen' : lo'.length = hi'.length) (hv' : ValidW lo' w') (hle' : allLE lo' hi' = true) (hg : GridOK g)
+    (hpl : ∀ t, massLE (lo.zip w) t = massLE (lo'.zip w') t)
+    (hbel : ∀ t, massLE (hi.zip w) t = massLE (hi'.zip w') t) :
+    stacking g lo hi (some w) = stacking g lo' hi' (some w') := by
+  obtain ⟨P, hP, hl, hr, hs⟩ := stacking_geninv g lo hi w hlen hv hle hg
+  obtain ⟨P', hP', hl', hr', hs'⟩ := stacking_geninv g lo' hi' w' hlen' hv' hle' hg
+  rw [hP, hP']
+  have hFl : massLE (lo.zip w) = massLE (lo'.zip w') := funext hpl
+  have hFr : massLE (hi.zip w) = massLE (hi'.zip w') := funext hbel
+  have e1 : P.left = P'.left := by
+    apply List.ext_getElem?
+    intro i
+    by_cases hi' : i < g.length
+    · obtain ⟨a, b, ha, hb, hga, hgb⟩ := hs i g[i] (by simp [hi'])
+      obtain ⟨a', b', ha', hb', hga', hgb'⟩ := hs' i g[i] (by simp [hi'])
+      rw [ha, ha', hga.unique (hFl ▸ hga')]
+    · rw [List.getElem?_eq_none (by omega), List.getElem?_eq_none (by omega)]
+  have e2 : P.right = P'.right := by
+    apply List.ext_getElem?
+    intro i
+    by_cases hi' : i < g.length
+    · obtain ⟨a, b, ha, hb, hga, hgb⟩ := hs i g[i] (by simp [hi'])
+      obtain ⟨a', b', ha', hb', hga', hgb'⟩ := hs' i g[i] (by simp [hi'])
+      rw [hb, hb', hgb.unique (hFr ▸ hgb')]
+    · rw [List.getElem?_eq_none (by omega), List.getElem?_eq_none (by omega)]
+  cases P; cases P'; simp_all
+
+/-! ## focal elements as triples `(lo, hi, mass)` : order and splitting -/
+
+abbrev Focal := ℚ × ℚ × ℚ
+def los (F : List Focal) : List ℚ := F.map (·.1)
+def his (F : List Focal) : List ℚ := F.map (·.2.1)
+def ms (F : List Focal) : List ℚ := F.map (·.2.2)
+
+/-- `stacking` applied to a list of focal elements -/
+def stackF (g : List ℚ) (F : List Focal) : Except Err PB := stacking g (los F) (his F) (some (ms F))
+
+/-- a finite DS structure: at least one focal interval, each `lo ≤ hi`, masses non-negative and summing to one -/
+structure ValidDS (F : List Focal) : Prop where
+  ne : F ≠ []
+  ivl : ∀ f ∈ F, f.1 ≤ f.2.1
+  nonneg : ∀ f ∈ F, 0 ≤ f.2.2
+  sum1 : (ms F).sum = 1
+
+theorem zip_lo (F : List Focal) : (los F).zip (ms F) = F.map (fun f => (f.1, f.2.2)) := by
+  induction F with
+  | nil => rfl
+  | cons f r ih => simp only [los, ms, List.map_cons, List.zip_cons_cons] at ih ⊢; rw [ih]
+
+theorem zip_hi (F : List Focal) : (his F).zip (ms F) = F.map (fun f => (f.2.1, f.2.2)) := by
+  induction F with
+  | nil => rfl
+  | cons f r ih => simp only [his, ms, List.map_cons, List.zip_cons_cons] at ih ⊢; rw [ih]
+
+theorem allLE_of_valid (F : List Focal) (h : ∀ f ∈ F, f.1 ≤ f.2.1) : allLE (los F) (his F) = true := by
+  induction F with
+  | nil => rfl
+  | cons f r ih =>
+    simp only [los, his, List.map_cons, allLE, Bool.and_eq_true, decide_eq_true_eq]
+    exact ⟨h f (by simp), ih (fun f' hf' => h f' (List.mem_cons_of_mem _ hf'))⟩
+
+theorem validW_of_valid (F : List Focal) (h : ValidDS F) : ValidW (los F) (ms F) :=
+  ⟨by simp [los, ms], by simpa [los] using h.ne,
+   by intro x hx; simp only [ms, List.mem_map] at hx; obtain ⟨f, hf, rfl⟩ := hx; exact h.nonneg f hf, h.sum1⟩
+
+/-- plausibility / belief cumulative functions of a DS structure -/
+def pl (F : List Focal) (t : ℚ) : ℚ := massLE (F.map (fun f => (f.1, f.2.2))) t
+def bel (F : List Focal) (t : ℚ) : ℚ := massLE (F.map (fun f => (f.2.1, f.2.2))) t
+
+/-- ★ the statement of the property for a list of focal elements -/
+theorem stackF_geninv (g : List ℚ) (F : List Focal) (hF : ValidDS F) (hg : GridOK g) :
+    ∃ P, stackF g F = .ok P ∧ P.left.length = g.length ∧ P.right.length = g.length ∧
+      ∀ (i : Nat) (p : ℚ), g[i]? = some p → ∃ a b, P.left[i]? = some a ∧ P.right[i]? = some b ∧
+        IsGenInv (pl F) p a ∧ IsGenInv (bel F) p b := by
+  have := stacking_geninv g (los F) (his F) (ms F) (by simp [los, his]) (validW_of_valid F hF)
+    (allLE_of_valid F hF.ivl) hg
+  rw [zip_lo, zip_hi] at this
+  exact this
+
+theorem stackF_eq_of_same_mass (g : List ℚ) (F F' : List Focal) (hF : ValidDS F) (hF' : ValidDS F') (hg : GridOK g)
+    (hpl : ∀ t, pl F t = pl F' t) (hbel : ∀ t, bel F t = bel F' t) : stackF g F = stackF g F' := by
+  apply stacking_eq_of_same_mass g _ _ _ _ _ _ (by simp [los, his]) (validW_of_valid F hF) (allLE_of_valid F hF.ivl)
+    (by simp [los, his]) (validW_of_valid F' hF') (allLE_of_valid F' hF'.ivl) hg
+  · intro t; rw [zip_lo, zip_lo]; exact hpl t
+  · intro t; rw [zip_hi, zip_hi]; exact hbel t
+
+theorem ValidDS.perm {F F' : List Focal} (h : F.Perm F') (hF : ValidDS F) : ValidDS F' :=
+  ⟨by intro h0; subst h0; exact hF.ne (List.Perm.eq_nil h), fun f hf => hF.ivl f (h.mem_iff.mpr hf),
+   fun f hf => hF.nonneg f (h.mem_iff.mpr hf), by rw [← hF.sum1]; exact (sum_perm (h.map _)).symm⟩
+
+/-- ★ the p-box does not depend on the order in which the focal elements are listed -/
+theorem stacking_perm_invariant (g : List ℚ) (F F' : List Focal) (h : F.Perm F') (hF : ValidDS F) (hg : GridOK g) :
+    stackF g F = stackF g F' :=
+  stackF_eq_of_same_mass g F F' hF (hF.perm h) hg
+    (fun t => massLE_perm (h.map _) t) (fun t => massLE_perm (h.map _) t)
+
+/-- ★ splitting one focal element into two copies sharing its mass (anywhere in the list, by
+`stacking_perm_invariant`) does not change the p-box -/
+theorem stacking_split_invariant (g : List ℚ) (a b m1 m2 : ℚ) (R : List Focal) (h1 : 0 ≤ m1) (h2 : 0 ≤ m2)
+    (hF : ValidDS ((a, b, m1 + m2) :: R)) (hg : GridOK g) :
+    stackF g ((a, b, m1) :: (a, b, m2) :: R) = stackF g ((a, b, m1 + m2) :: R) := by
+  have hF' : ValidDS ((a, b, m1) :: (a, b, m2) :: R) := by
+    refine ⟨by simp, ?_, ?_, ?_⟩
+    · intro f hf
+      simp only [List.mem_cons] at hf
+      rcases hf with rfl | rfl | hf
+      · exact hF.ivl (a, b, m1 + m2) (by simp)
+      · exact hF.ivl (a, b, m1 + m2) (by simp)
+      · exact hF.ivl f (List.mem_cons_of_mem _ hf)
+    · intro f hf
+      simp only [List.mem_cons] at hf
+      rcases hf with rfl | rfl | hf
+      · exact h1
+      · exact h2
+      · exact hF.nonneg f (List.mem_cons_of_mem _ hf)
+    · have := hF.sum1
+      simp only [ms, List.map_cons, List.sum_cons] at this ⊢
+      linarith
+  apply stackF_eq_of_same_mass g _ _ hF' hF hg
+  · intro t; simp only [pl, List.map_cons]; exact massLE_split a m1 m2 _ t
+  · intro t; simp only [bel, List.map_cons]; exact massLE_split b m1 m2 _ t
+
+example : ValidDS [((1 : ℚ), (3 : ℚ), (1/4 : ℚ) + 1/4), (2, 4, 1/2)] :=
+  ⟨by simp, by intro f hf; simp at hf; rcases hf with rfl | rfl <;> norm_num,
+   by intro f hf; simp at hf; rcases hf with rfl | rfl <;> norm_num, by norm_num [ms]⟩
+
+/-- ○ a cumulated mass that equals the level selects that focal endpoint (the comparison is `≥`, not `>`):
+if the mass up to and including `s` is exactly `p`, the bound at level `p` is at most `s` -/
+theorem grid_hit {F : ℚ → ℚ} {p s a : ℚ} (h : IsGenInv F p a) (hit : F s = p) : a ≤ s := by
+  by_contra hc
+  have := h.2 s (not_le.mp hc)
+  linarith
+
 end Pun.Props.C08
